@@ -2,8 +2,9 @@
 Small facts about the executable helpers of `Spec/C09.lean` (used by the Spec bridges of C09). Core Lean only.
 -/
 import Bermuda.Spec.C09
+import Bermuda.Lemmas.Summarize
 namespace Bermuda.Properties.C09
-open Bermuda Bermuda.Spec.C09
+open Bermuda Bermuda.Spec.C09 Generated.Summarize
 
 theorem nodupB_of_nodup {α} [BEq α] [LawfulBEq α] {l : List α} (h : l.Nodup) : nodupB l = true := by
   induction l with
@@ -14,5 +15,133 @@ theorem nodupB_of_nodup {α} [BEq α] [LawfulBEq α] {l : List α} (h : l.Nodup)
 
 theorem Dict.contains_iff {α} (d : Dict α) (k : String) : Dict.contains d k = true ↔ k ∈ d.keys := by
   simp [Dict.contains, Dict.keys, List.any_eq_true, List.mem_map]
+
+
+/-- what `summarize` computed for one output cell -/
+theorem summarize_out_cell {tr : Transc} {extra : List RuleEntry} {t out : List Cell} {prem : Bool}
+    {o : Cell} (h : summarize tr extra t prem = .ok out) (ho : o ∈ out) :
+    summarizeCellValues tr extra (groupOf (smIsIncremental t) t o)
+      (if smIsIncremental t then true else prem) = .ok o.values ∧ groupOf (smIsIncremental t) t o ≠ [] := by
+  obtain ⟨md, cells, hmd, hcells, hperm⟩ := summarize_decompose h
+  obtain ⟨g, hg, hgo⟩ := smMapE_mem hcells (hperm.mem_iff.mp ho)
+  have hk := summaryCell_coordKey hg hgo
+  obtain ⟨vals, hvals, ho'⟩ := summaryCell_ok hgo
+  unfold groupsOf at hg
+  obtain ⟨k, hk', rfl⟩ := List.mem_map.mp hg
+  simp only at hk hvals
+  have hg2 : (t.filter fun a => coordKey (smIsIncremental t) a == k) = groupOf (smIsIncremental t) t o := by
+    simp only [groupOf, hk]
+  rw [hg2] at hvals
+  refine ⟨by rw [hvals, ho'], ?_⟩
+  obtain ⟨c, hc, rfl⟩ := List.mem_map.mp (mem_smDedup.mp hk')
+  rw [← hg2]
+  intro he
+  have : c ∈ t.filter (fun a => coordKey (smIsIncremental t) a == coordKey (smIsIncremental t) c) :=
+    List.mem_filter.mpr ⟨hc, by simp⟩
+  rw [he] at this; simp at this
+
+/-- the result of `summarize_cell_values` carries exactly the field names of its cells, each once -/
+theorem summarizeCellValues_keys_perm {tr : Transc} {extra : List RuleEntry} {cells : List Cell}
+    {pf : Bool} {d : Dict Val} (h : summarizeCellValues tr extra cells pf = .ok d) :
+    d.keys.Perm (valueKeys cells) := by
+  unfold summarizeCellValues at h
+  simp only at h
+  split at h
+  · cases h
+  · cases pf with
+    | true =>
+      simp only [if_true] at h
+      rw [smMapE_keys h (fun k r hk => aggKey_fst hk)]
+    | false =>
+      simp only [Bool.false_eq_true, if_false] at h
+      split at h
+      · cases h
+      · rename_i loss hloss
+        split at h
+        · cases h
+        · rename_i nonLoss hnon
+          cases h
+          have h1 := smMapE_keys hloss (fun k r hk => aggKey_fst hk)
+          have h2 := smMapE_keys hnon (fun k r hk => firstNonLoss_fst hk)
+          have : Dict.keys (loss ++ nonLoss) = Dict.keys loss ++ Dict.keys nonLoss := by
+            simp [Dict.keys]
+          rw [this, h1, h2]
+          have := List.filter_append_perm (fun k => !nonLossMetrics.contains k) (valueKeys cells)
+          simpa using this
+
+theorem Dict.get?_of_mem_nodup {α} {d : Dict α} {k : String} {v : α} (hn : d.keys.Nodup)
+    (hm : (k, v) ∈ d) : Dict.get? d k = some v := by
+  induction d with
+  | nil => simp at hm
+  | cons p d ih =>
+    simp only [Dict.keys, List.map_cons, List.nodup_cons] at hn
+    rw [Dict.get?_cons_s]
+    rcases List.mem_cons.mp hm with rfl | hm
+    · simp
+    · have : p.1 ≠ k := by
+        intro e; apply hn.1; rw [e]; exact List.mem_map.mpr ⟨(k, v), hm, rfl⟩
+      rw [if_neg this]; exact ih hn.2 hm
+
+theorem attrShared_of_iff {α} [BEq α] [LawfulBEq α] {t : List Cell} {f : Metadata → Option α}
+    {m : Option α} (h : ∀ x, m = some x ↔ ∀ c ∈ t, f c.md = some x) : attrShared t f m = true := by
+  unfold attrShared
+  cases m with
+  | some x => simpa [List.all_eq_true] using (h x).mp rfl
+  | none =>
+    simp only [Bool.not_eq_true', List.any_eq_false, List.all_eq_true, beq_iff_eq]
+    intro x _ hall
+    have := (h x).mpr hall
+    cases this
+
+theorem detailsShared_of_iff {ds : List (Dict MVal)} {m : Dict MVal} (hn : m.keys.Nodup)
+    (h : ∀ k v, Dict.get? m k = some v ↔ v ≠ MVal.none ∧ ∀ d ∈ ds, Dict.get? d k = some v) :
+    detailsShared ds m = true := by
+  have hes : ∀ kv : String × MVal, entryShared ds kv = true ↔
+      kv.2 ≠ MVal.none ∧ ∀ d ∈ ds, Dict.get? d kv.1 = some kv.2 := by
+    intro kv
+    simp [entryShared, List.all_eq_true]
+  simp only [detailsShared, Bool.and_eq_true, List.all_eq_true]
+  refine ⟨⟨nodupB_of_nodup hn, ?_⟩, ?_⟩
+  · intro kv hkv
+    rw [hes]
+    exact (h kv.1 kv.2).mp (Dict.get?_of_mem_nodup hn hkv)
+  · intro d _ kv _
+    cases hs : entryShared ds kv with
+    | false => simp
+    | true =>
+      have := (h kv.1 kv.2).mpr ((hes kv).mp hs)
+      simp [this]
+
+theorem detailsGcd_keys_nodup (d0 : Dict MVal) (rest : List (Dict MVal)) (hn : d0.keys.Nodup) :
+    (detailsGcd (d0 :: rest)).keys.Nodup := by
+  unfold detailsGcd Dict.keys
+  exact hn.sublist (List.filter_sublist.map _)
+
+theorem metadataGcd_keys_nodup {t : List Cell} {m : Metadata} (h : metadataGcd t = .ok m)
+    (hn : ∀ c ∈ t, c.md.details.keys.Nodup ∧ c.md.lossDetails.keys.Nodup) :
+    m.details.keys.Nodup ∧ m.lossDetails.keys.Nodup := by
+  unfold metadataGcd at h
+  split at h
+  · cases h
+  · split at h
+    · cases h
+    · cases t with
+      | nil => cases h
+      | cons c0 rest =>
+        simp only at h
+        cases h
+        exact ⟨detailsGcd_keys_nodup _ _ (hn c0 (by simp)).1, detailsGcd_keys_nodup _ _ (hn c0 (by simp)).2⟩
+
+
+theorem closeTo_self {tol a : Rat} (h0 : 0 ≤ tol) : closeTo tol a a = true := by
+  unfold closeTo
+  have h1 : a - a = 0 := by grind
+  have h2 : 0 ≤ absR a := by unfold absR; split <;> grind
+  rw [h1]
+  simp only [decide_eq_true_eq]
+  have : absR 0 = 0 := by unfold absR; split <;> grind
+  rw [this]
+  split <;> exact Rat.mul_nonneg h0 h2
+
 
 end Bermuda.Properties.C09
